@@ -308,37 +308,115 @@ func c02Identity(w *World, r *Report) {
 		return
 	}
 	r.Fn(FuncName(fn))
-	fields := map[string]bool{}
+	g := FullGraph(fn)
+	want := []string{"Name", "Namespace", "Kind", "Group"}
+	// edges on which the two resources agree on a field
+	eq := map[string][]Edge{}
+	eqVal := map[ssa.Value]string{} // comparison value -> field (when it is an equality)
 	for _, b := range fn.Blocks {
 		for _, in := range b.Instrs {
 			bo, ok := in.(*ssa.BinOp)
-			if !ok {
+			if !ok || (bo.Op != token.EQL && bo.Op != token.NEQ) {
 				continue
 			}
-			if bo.Op != token.EQL {
-				if bo.Op == token.NEQ || bo.Op == token.LOR {
-					fields["<non-equality>"] = true
+			fx, fy := leafField(bo.X), leafField(bo.Y)
+			if fx == "" || fx != fy {
+				continue
+			}
+			if bo.Op == token.EQL {
+				eqVal[bo] = fx
+			}
+			for _, e := range condEdges(bo) {
+				if e.truth == (bo.Op == token.EQL) {
+					eq[fx] = append(eq[fx], e.Edge)
 				}
-				continue
-			}
-			fx := leafField(bo.X)
-			fy := leafField(bo.Y)
-			if fx != "" && fx == fy {
-				fields[fx] = true
 			}
 		}
 	}
-	want := []string{"Name", "Namespace", "Kind", "Group"}
+	pathImplied := func(at IPos) map[string]bool {
+		out := map[string]bool{}
+		for _, f := range want {
+			if len(eq[f]) == 0 {
+				continue
+			}
+			if ex, _ := g.PathExists(entryPos(fn), at, Avoid{}.withEdges(eq[f]...)); !ex {
+				out[f] = true
+			}
+		}
+		return out
+	}
+	var valueImplied func(v ssa.Value, at IPos, d int) map[string]bool
+	all := func() map[string]bool {
+		m := map[string]bool{}
+		for _, f := range want {
+			m[f] = true
+		}
+		return m
+	}
+	valueImplied = func(v ssa.Value, at IPos, d int) map[string]bool {
+		if cb, isC := constBool(v); isC {
+			if !cb {
+				return all() // a false result claims nothing
+			}
+			return pathImplied(at)
+		}
+		out := pathImplied(at)
+		if f, ok := eqVal[v]; ok {
+			out[f] = true
+			return out
+		}
+		if phi, ok := v.(*ssa.Phi); ok && d < 4 {
+			var acc map[string]bool
+			for i, e := range phi.Edges {
+				p := phi.Block().Preds[i]
+				if len(p.Instrs) == 0 {
+					continue
+				}
+				m := valueImplied(e, IPos{p, len(p.Instrs) - 1}, d+1)
+				if acc == nil {
+					acc = m
+				} else {
+					for k := range acc {
+						if !m[k] {
+							delete(acc, k)
+						}
+					}
+				}
+			}
+			for k := range acc {
+				out[k] = true
+			}
+		}
+		return out
+	}
+	implied := all()
+	for _, b := range fn.Blocks {
+		if len(b.Instrs) == 0 || !g.Reachable()[b] {
+			continue
+		}
+		if ret, ok := b.Instrs[len(b.Instrs)-1].(*ssa.Return); ok && len(ret.Results) == 1 {
+			m := valueImplied(ret.Results[0], posOf(ret), 0)
+			for k := range implied {
+				if !m[k] {
+					delete(implied, k)
+				}
+			}
+		}
+	}
 	missing := []string{}
 	for _, f := range want {
-		if !fields[f] {
+		if !implied[f] {
 			missing = append(missing, f)
 		}
 	}
-	r.Check(len(missing) == 0 && !fields["<non-equality>"], "C02/IDENTITY", "isMatchingInfo", w.Pos(fn.Pos()), "resources are matched on name, namespace, kind and group", "resource identity ignores "+strings.Join(missing, ", ")+": distinct resources are treated as one (a dropped one would not be deleted, or the wrong one patched)")
+	r.Check(len(missing) == 0, "C02/IDENTITY", "isMatchingInfo", w.Pos(fn.Pos()), "a true result implies equal name, namespace, kind and group", "resource identity ignores "+strings.Join(missing, ", ")+": distinct resources are treated as one (a dropped one would not be deleted, or the wrong one patched)")
 }
 
 func leafField(v ssa.Value) string {
+	if fd, ok := v.(*ssa.Field); ok { // a field of a struct value copied into a local
+		_, _, f := fieldNameOf(fd)
+		return f
+	}
 	ld, ok := v.(*ssa.UnOp)
 	if !ok || ld.Op != token.MUL {
 		return ""
